@@ -87,7 +87,8 @@ pub fn run_all(ctx: &mut Ctx, stream: &str) {
 			TransSkip, Box<TransSkip>, [TransSkip; 2],
 			TransMarker, Box<TransMarker>, [TransMarker; 2], Rc<TransMarker>, Vec<Box<TransMarker>>, (Box<TransMarker>, u8),
 			TransMarkerVec, Box<TransMarkerVec>, Arc<TransMarkerVec>, [TransMarkerVec; 2],
-			MelDup, Vec<MelDup>, Option<MelDup>, ConstDisc, Vec<ConstDisc>, (ConstDisc, u8), [ConstDisc; 3], MidSkip, Box<MidSkip>, Vec<MidSkip>);
+			MelDup, Vec<MelDup>, Option<MelDup>, ConstDisc, Vec<ConstDisc>, (ConstDisc, u8), [ConstDisc; 3], MidSkip, Box<MidSkip>, Vec<MidSkip>,
+			SkipOrders, Vec<SkipOrders>, Option<SkipOrders>);
 		return;
 	}
 	small!(ctx, stream, f; (), bool, OptionBool, u8, i8, Option<bool>, Result<bool, bool>, Compact<u8>, Compact<u16>,
@@ -134,7 +135,7 @@ pub fn run_all(ctx: &mut Ctx, stream: &str) {
 		TransSkipPayload, Box<TransSkipPayload>, [TransSkipPayload; 2], (Box<TransSkipPayload>, u8),
 		TransMarker, Box<TransMarker>, [TransMarker; 2], Rc<TransMarker>, Vec<Box<TransMarker>>, (Box<TransMarker>, u8),
 		TransMarkerVec, Box<TransMarkerVec>, Arc<TransMarkerVec>, [TransMarkerVec; 2],
-		MelDup, Vec<MelDup>, Option<MelDup>, ConstDisc, Vec<ConstDisc>, (ConstDisc, u8), [ConstDisc; 3], BTreeSet<ConstDisc>, MidSkip, Box<MidSkip>, Vec<MidSkip>,
+		MelDup, Vec<MelDup>, Option<MelDup>, ConstDisc, Vec<ConstDisc>, (ConstDisc, u8), [ConstDisc; 3], BTreeSet<ConstDisc>, MidSkip, Box<MidSkip>, Vec<MidSkip>, SkipOrders, Vec<SkipOrders>, Option<SkipOrders>,
 		Vec<BTreeMap<u8, u8>>, (BTreeMap<u8, u8>, Vec<Box<u8>>), [BTreeSet<u8>; 3], Vec<BTreeSet<u16>>, (BTreeSet<u8>, BTreeSet<u8>, Box<u8>), Vec<(BTreeMap<u8, u8>, Box<u8>)>,
 		Box<[bool; 4]>, Box<[NonZeroU8; 3]>, Rc<[OptionBool; 2]>, Vec<[bool; 2]>, [[bool; 2]; 2], Arc<[NonZeroU32; 2]>, Box<[Option<bool>; 2]>, VecDeque<bool>, BinaryHeap<bool>,
 		Result<u8, u64>, Result<(), u8>, Result<(), [u8; 32]>, Option<Result<u8, (u16, u16)>>, Result<u64, u8>, [Result<bool, u32>; 2],
